@@ -55,6 +55,7 @@ type outcome struct {
 const replayHelpers = `
 func verifBig(s string) *verifbig.Int { n, _ := new(verifbig.Int).SetString(s, 10); return n }
 func verifHex(s string) []byte { b, _ := verifhex.DecodeString(s); return b }
+func verifAddr[T any](v T) *T { return &v }
 
 type verifObs struct {
 	Type  string     ` + "`json:\"type\"`" + `
@@ -304,6 +305,14 @@ func (me *modelEnv) goExpr(name string, v Val, t types.Type) (string, bool) {
 			// pointer to a modelled object: &T{...} from its entry contents
 			if me.cells != nil {
 				if cv, ok := me.cells[x.Cell]; ok && len(x.Path) == 0 {
+					if _, isScalar := cv.(Scalar); isScalar {
+						// pointer to an integer or boolean variable (ip *uint16): a fresh variable holding the entry value
+						if _, isBasic := x.Elem.Underlying().(*types.Basic); isBasic {
+							if e, ok := me.goExpr(name, cv, x.Elem); ok {
+								return "verifAddr(" + e + ")", true
+							}
+						}
+					}
 					if e, ok := me.goExpr(name, cv, x.Elem); ok && strings.Contains(e, "{") {
 						return "&" + e, true
 					}
@@ -859,6 +868,21 @@ func (p *Program) judge(fr *FuncResult, model map[string]string, oc *outcome, wo
 			if !ok {
 				continue
 			}
+			if _, isBasic := pt.Elem().Underlying().(*types.Basic); isBasic {
+				// pointer to an integer/boolean variable: the harness appended its final value
+				pv, ok := ex.ParamVals[fr.ParamNames[pi]].(PtrV)
+				if ok && pv.K == PCell && len(pv.Path) == 0 && idx < len(oc.Results) {
+					if _, isScalar := ex.Entry.Cells[pv.Cell].(Scalar); isScalar {
+						ex.resultMode = true
+						fv := ex.symVal(st, fmt.Sprintf("obsP%d", pi), pt.Elem(), 1)
+						ex.resultMode = false
+						ob.bind(fv, oc.Results[idx], pt.Elem())
+						st.Cells[pv.Cell] = fv
+						idx++
+					}
+				}
+				continue
+			}
 			stt, ok := pt.Elem().Underlying().(*types.Struct)
 			if !ok {
 				continue
@@ -899,7 +923,23 @@ func (p *Program) judge(fr *FuncResult, model map[string]string, oc *outcome, wo
 			idx += stt.NumFields()
 		}
 		binds = ob.facts
-		penv := &SpecEnv{ex: ex, st: st, old: ex.Entry, vars: vars, vtypes: entryEnv.vtypes, pkg: fn.Pkg.Pkg, contract: c}
+		// static types of the results (Go-style conversions in postconditions need them: int(result1))
+		pvt := map[string]types.Type{}
+		for k, v := range entryEnv.vtypes {
+			pvt[k] = v
+		}
+		for i := 0; i < results.Len(); i++ {
+			pvt[fmt.Sprintf("result%d", i)] = results.At(i).Type()
+			if results.Len() == 1 {
+				pvt["result"] = results.At(i).Type()
+			}
+			if rn := results.At(i).Name(); rn != "" && rn != "_" {
+				if _, clash := pvt[rn]; !clash {
+					pvt[rn] = results.At(i).Type()
+				}
+			}
+		}
+		penv := &SpecEnv{ex: ex, st: st, old: ex.Entry, vars: vars, vtypes: pvt, pkg: fn.Pkg.Pkg, contract: c}
 		penv.bindLets(c, false)
 		penv.bindLets(c, true)
 		for i, en := range c.Ensures {
